@@ -38,9 +38,11 @@ theorem n_le_2 (isP : Int → Bool) (hP : CorrectOracle isP) (fuel : Nat) (l : I
       (blum = true → p % 4 = 3 ∧ ∀ q : Int, Nat.Prime q.toNat → q % 4 = 3 → q < 2 ^ l.toNat → q ≤ p) :=
   findPrimeRoot_le2 isP hP fuel l blum n hl hn
 
-example : ∃ p : Int, findPrimeRoot (fun y => decide (Nat.Prime y.toNat)) 0 10 true 2 = .ok (p, 2, p - 1) ∧ p % 4 = 3 :=
-  let ⟨p, h1, _, _, _, _, h6⟩ := n_le_2 _ (fun y => by simp) 0 10 true 2 (by decide) (by decide)
-  ⟨p, by simpa using h1, (h6 rfl).1⟩
+example : ∃ p : Int, findPrimeRoot (fun y => decide (Nat.Prime y.toNat)) 0 10 true 2 = .ok (p, 2, p - 1) ∧
+    p % 4 = 3 := by
+  obtain ⟨p, h1, _, _, _, _, h6⟩ :=
+    n_le_2 (fun y => decide (Nat.Prime y.toNat)) (fun y => by simp) 0 10 true 2 (by decide) (by decide)
+  exact ⟨p, by simpa using h1, (h6 rfl).1⟩
 
 /-- Blum, n ≤ 2: exactly l bits under the (Breusch-type, unproved) existence hypothesis -/
 theorem n_le_2_bits (isP : Int → Bool) (hP : CorrectOracle isP) (fuel : Nat) (l n : Int) (hl : 2 < l) (hn : n ≤ 2)
